@@ -19,13 +19,25 @@ impl WorkspaceLock {
     }
 
     pub(crate) async fn acquire(&self) -> WorkspaceGuard {
+        #[cfg(rip_verif)]
+        rip_kernel::verif::lock_point("ws.lock", &|| self.semaphore.available_permits() > 0);
         let permit = self
             .semaphore
             .clone()
             .acquire_owned()
             .await
             .expect("workspace lock semaphore closed");
+        #[cfg(rip_verif)]
+        rip_kernel::verif::span("ws.guard", true, "");
         WorkspaceGuard { _permit: permit }
+    }
+}
+
+#[cfg(rip_verif)]
+impl Drop for WorkspaceGuard {
+    fn drop(&mut self) {
+        // Runs before the permit field is released.
+        rip_kernel::verif::span("ws.guard", false, "");
     }
 }
 
